@@ -113,7 +113,7 @@ class C09(Spec):
         w.meta["truth"] = truth
         return w
 
-    def post_world(self, rng, base):
+    def post_world(self, rng, base, force_cross=False):
         w = netgen.World(base, 128)
         ha, hb = 0, 1
         me = w.url(ha, "/notes/op")
@@ -174,7 +174,7 @@ class C09(Spec):
             entries.append(rid if rng.random() < 0.6 or kind == "missing" else ({"id": rid} if rng.random() < 0.5 else stamp(dict(note), w.host(ha))))
             truth.append(genuine)
         coll_host = ha
-        if rng.random() < 0.3:
+        if force_cross or rng.random() < 0.3:
             # the replies collection is served by host b; it embeds a full object that claims an id on host a (never served there)
             # and says it replies to the opened post: it must be fetched from a, i.e. it is an error item
             coll_host = hb
@@ -185,6 +185,7 @@ class C09(Spec):
             pos = rng.randrange(len(entries) + 1)
             entries.insert(pos, stamp(forged, w.host(hb)))
             truth.insert(pos, False)
+            w.meta["forged_pos"] = pos
             n += 1
         coll = {"type": "Collection", "id": replies, "items": entries}
         w.register_strings(coll)
